@@ -67,11 +67,12 @@ def descWfB (d : Dec) : Desc → Bool
 
 /-- what Go's types and encoding/json establish about a manifest value (`Man.WF`, Proofs/FlagsManifest.lean), decidably -/
 def wfB (d : Dec) (m : Man) : Bool :=
-  let paramOk := fun (p : Param) => d.utf8 p.name && d.validTypes.contains p.typ
+  let paramOk := fun (p : Param) => d.utf8 p.name && d.validTypes.contains p.typ && decide (p.typ < 2 ^ 63)
   d.utf8 m.name &&
   (m.groups.getD []).all (fun g => d.decodeKey g.key == some g.key && g.sig.length == 64) &&
   m.standards.all d.utf8 &&
-  m.methods.all (fun x => d.utf8 x.name && d.validTypes.contains x.ret && x.params.all paramOk) &&
+  m.methods.all (fun x => d.utf8 x.name && d.validTypes.contains x.ret && x.params.all paramOk &&
+    decide (x.ret < 2 ^ 63) && decide (-(2 ^ 63) ≤ x.offset) && decide (x.offset < 2 ^ 63)) &&
   m.events.all (fun e => d.utf8 e.name && e.params.all paramOk) &&
   m.perms.all (fun p => descWfB d p.contract && (match p.methods with | none => true | some ms => ms.all d.utf8)) &&
   (m.trusts.value.getD []).all (descWfB d)
